@@ -157,10 +157,17 @@ template <class E, class X> struct ArraySeq {
             A& x = *a[k]; long n = (long)x.size();
             if (n < 0 || n > 100000 || (long)x.capacity() < n) { dead = true; return; }
             m[k].clear();
-            for (long i = 0; i < n; ++i) m[k].push_back(mk(valOf(x[ix(i)])));
+            for (long i = 0; i < n; ++i) {
+                if (TR && !g.isLive(&x[ix(i)])) { dead = true; return; }   // array holds a destroyed element: nothing sensible can follow
+                m[k].push_back(mk(valOf(x[ix(i)])));
+            }
         }
         g.faults.clear();
-        if (TR) slack = (long)g.live.size() - wantLive();
+        if (TR) {
+            // forget stale registrations left in unconstructed slots so that later ops are not blamed for them
+            for (int k = 0; k < K; ++k) { A& x = *a[k]; for (long i = (long)x.size(); i < (long)x.capacity(); ++i) g.live.erase(x.data() + i); }
+            slack = (long)g.live.size() - wantLive();
+        }
     }
 
     // ------------------------------------------------------------ op bookkeeping
@@ -234,6 +241,7 @@ template <class E, class X> struct ArraySeq {
         // teardown: every element must be destroyed exactly once
         op = "teardown"; c.setPhase(op); aliasKeyOp.clear();
         for (int k = 0; k < K; ++k) { a[k].reset(); std::vector<E>().swap(m[k]); }
+        if (dead) g.faults.clear();
         flushFaults();
         if (TR && (long)g.live.size() != slack && !dead)
             fail("leak", Json::obj().set("live_objects_after_teardown", (long)g.live.size()).set("expected", slack));
